@@ -1,5 +1,6 @@
 import RV.C03.LongLemmas
 import RV.C03.NumLemmas
+import RV.C03.ListLemmas
 /-
   C03 — property theorems: "serialise then parse gives back the same RDF graph".
 
@@ -162,5 +163,71 @@ example : quoteEncode "a\"\"\"\"\nb\"".toList = "\"\"\"a\\\"\\\"\\\"\"\nb\\\"\"\
 example : ntQuoteEncode "a\n\"\\\r".toList = "\"a\\n\\\"\\\\\\r\"".toList := by decide
 example : relex "1e+00".toList = some .double ∧ relex "1.".toList = none ∧ relex "+1".toList = some .integer
     ∧ relex ".5".toList = some .decimal := by decide
+
+/-! ## Layer 2 — structure: collections -/
+
+/-- What acceptance by `isValidList` establishes (the list part of `Pre`): the head starts a chain of pairwise
+    distinct blank nodes, none written yet, each with exactly one rdf:first, exactly one rdf:rest and no other
+    property, every cell after the head referenced exactly once, ending in rdf:nil. -/
+def Statement_isValidList_proper : Prop :=
+  ∀ (g : Graph) (ser : List Term) (h : Term), isValidList g ser h = some true →
+    ∃ cells, cells ≠ [] ∧ ProperChain g ser true h cells
+
+/-- `isValidList` terminates on every finite graph, cyclic or malformed rdf:rest chains included:
+    fuel `|g| + 2` is never exhausted (the visited set grows by a distinct subject of the graph per step). -/
+def Statement_isValidList_terminates : Prop :=
+  ∀ (g : Graph) (ser : List Term) (h : Term), isValidList g ser h ≠ none
+
+theorem isValidList_proper : Statement_isValidList_proper := by
+  intro g ser h hv
+  obtain ⟨cells, hc, _, hne⟩ := isValidList_sound g ser _ [] h hv
+  exact ⟨cells, hne rfl, by simpa using hc⟩
+
+theorem isValidList_terminates : Statement_isValidList_terminates := by
+  intro g ser h
+  exact isValidListAux_fuel g ser _ [] h ⟨List.nodup_nil, by simp⟩ (by simp)
+
+/-- the shared-tail graph of finding C03-F2:  `s p (a b c)`, and `t q` pointing at the second cell -/
+def sharedTail : Graph :=
+  [(.iri 10, .iri 11, .bn (.orig 1)),
+   (.bn (.orig 1), rdfFirst, .lit 1), (.bn (.orig 1), rdfRest, .bn (.orig 2)),
+   (.bn (.orig 2), rdfFirst, .lit 2), (.bn (.orig 2), rdfRest, .bn (.orig 3)),
+   (.bn (.orig 3), rdfFirst, .lit 3), (.bn (.orig 3), rdfRest, rdfNil),
+   (.iri 12, .iri 13, .bn (.orig 2))]
+
+/-- a cell with two rdf:first and no rdf:rest (finding C03-F2c) -/
+def twoFirsts : Graph :=
+  [(.iri 10, .iri 11, .bn (.orig 1)), (.bn (.orig 1), rdfFirst, .lit 1), (.bn (.orig 1), rdfFirst, .lit 2)]
+
+/-- rdf:rest of the second cell points at itself (finding C03-F2b) -/
+def cyclicRest : Graph :=
+  [(.iri 10, .iri 11, .bn (.orig 1)),
+   (.bn (.orig 1), rdfFirst, .lit 1), (.bn (.orig 1), rdfRest, .bn (.orig 2)),
+   (.bn (.orig 2), rdfFirst, .lit 2), (.bn (.orig 2), rdfRest, .bn (.orig 2))]
+
+/-- Regression witnesses for DESIGN §7.2 #19: the pre-fix test accepted the shared tail and the two-firsts
+    cell; the repaired one rejects both. -/
+theorem old_isValidList_accepts_malformed :
+    isValidListOld sharedTail 10 (.bn (.orig 1)) = some true ∧ isValidList sharedTail [] (.bn (.orig 1)) = some false ∧
+    isValidListOld twoFirsts 10 (.bn (.orig 1)) = some true ∧ isValidList twoFirsts [] (.bn (.orig 1)) = some false := by
+  decide
+
+/-- … and never finished on a cyclic rdf:rest that does not pass through the entry cell: whatever the fuel,
+    the walk is still going; the repaired one answers `false`. -/
+theorem old_isValidList_diverges_on_cycle :
+    (∀ fuel, isValidListOldAux cyclicRest fuel (.bn (.orig 2)) = none) ∧
+    isValidList cyclicRest [] (.bn (.orig 1)) = some false := by
+  constructor
+  · intro fuel
+    induction fuel with
+    | zero => rfl
+    | succ f ih =>
+      have : isValidListOldAux cyclicRest (f + 1) (.bn (.orig 2)) = isValidListOldAux cyclicRest f (.bn (.orig 2)) := by
+        simp [isValidListOldAux, cyclicRest, propsOf, restsOf, rdfNil, rdfFirst, rdfRest]
+      rw [this, ih]
+  · decide
+
+/-- non-vacuity: a proper three-element list is accepted -/
+example : isValidList (sharedTail.take 7) [] (.bn (.orig 1)) = some true := by decide
 
 end RV.C03
